@@ -191,6 +191,13 @@ def run_case(case, obs):
     if probe.exception is not None:
         obs.ev("run_raised_not_judged")
         return
+    if case["qseed"] % 4 == 0:
+        from vlib.monitors import poke
+        poke(sim, sim.network)
+        poke(sim.network, build.build_network(d["network"]))
+        for e_ in list(sim.ev_history.values())[:3]:
+            poke(e_, sim)
+        obs.ev("objects_printed_compared_hashed_before_analysis")
     ids, A, L, angles, names = oracles.dense_rows(d["network"])
     # the simulator's rows are in registration order == descriptor order (build_network)
     if list(sim.network.station_ids) != ids:
